@@ -6,6 +6,7 @@ import (
 	"fmt"
 	"os"
 	"os/exec"
+	"regexp"
 	"runtime"
 	"sort"
 	"strconv"
@@ -51,11 +52,11 @@ var c05Slack = func() time.Duration {
 // groups (kind, variant) in which confirmed hangs were seen; after two the sweep stops (verdict clear)
 var c05hangGroups int
 
-var c05kinds = []string{"si", "gp", "ia", "au", "he", "rp", "cb", "nw", "nv"}
+var c05kinds = []string{"si", "gp", "ia", "au", "as", "he", "rp", "cb", "gb", "nw", "nv"}
 
 var c05kindName = map[string]string{"si": "generic.SendCommand", "gp": "generic.GetPrompt", "ia": "generic.SendInteractive",
 	"au": "in-channel telnet login (Open)", "he": "netconf.Open (server hello)", "rp": "netconf RPC", "cb": "generic.SendWithCallbacks",
-	"nw": "network.SendCommand with implicit AcquirePriv"}
+	"nw": "network.SendCommand with implicit AcquirePriv", "as": "in-channel ssh login (Open)", "gb": "generic batch send"}
 
 // c05ncOps: every public NETCONF operation that sends an RPC and waits for its reply
 type c05ncOp struct {
@@ -97,7 +98,7 @@ var c05ncOps = []c05ncOp{
 	}},
 }
 
-var c05nvOps = []string{"SendConfigs", "SendConfig", "SendInteractive(configuration)", "AcquirePriv", "SendCommand(from exec)"}
+var c05nvOps = []string{"SendConfigs", "SendConfig", "SendInteractive(configuration)", "AcquirePriv", "SendCommand(from exec)", "SendCommands(from exec)", "GetPrompt"}
 
 func c05name(cs c05case) string {
 	if cs.kind == "nv" {
@@ -157,7 +158,7 @@ func (cs c05case) line() string {
 // rough exchange lengths, used only to budget delivery time: on a loaded machine every read costs
 // about one millisecond whatever the configured read delay (sleep granularity), so an exchange
 // that is delivered one byte per read needs that much time before its stall point is even reached
-var c05len = map[string]int{"si": 40, "gp": 8, "ia": 60, "au": 30, "he": 190, "rp": 150, "rq": 170, "cb": 45, "nw": 100, "nv": 170}
+var c05len = map[string]int{"si": 40, "gp": 8, "ia": 60, "au": 30, "he": 190, "rp": 150, "rq": 170, "cb": 45, "nw": 100, "nv": 170, "as": 80, "gb": 130}
 
 // c05timeouts: connection-wide and per-operation timeout of a case (perOp < 0: not given).
 func c05timeouts(cs c05case) (conn, perOp time.Duration) {
@@ -185,7 +186,7 @@ func c05timeouts(cs c05case) (conn, perOp time.Duration) {
 
 func c05settings(kind string) []string {
 	switch kind {
-	case "gp", "au", "he": // no per-operation timeout exists for these
+	case "gp", "au", "as", "he": // no per-operation timeout exists for these
 		return []string{"conn"}
 	case "cb": // the timeout is an explicit argument: equal to / shorter than the connection-wide one
 		return []string{"conn", "pshort"}
@@ -200,8 +201,16 @@ func c05variants(kind string) int {
 	case "nv":
 		return len(c05nvOps)
 	case "si":
-		return 4
-	case "ia", "rp":
+		return 8 // 0-3 exact x strip, 4 ends at an interim prompt, 5 eager, 6 small search depth + long input, 7 interim given but ends at the channel prompt
+	case "ia":
+		return 4 // 0-1 dialogues, 2 complete patterns, 3 exact input
+	case "as":
+		return 6 // password, passphrase+password, one retry, too many retries, ssh error text, passphrase refused too often
+	case "au":
+		return 3 // accepted, refused once, refused too often
+	case "he":
+		return 3 // plain, both versions offered (preferred 1.1, no session-id), preferred 1.0
+	case "cb", "gb", "rp":
 		return 2
 	}
 	return 1
@@ -227,6 +236,7 @@ type c05env struct {
 	cleanPhase []bool
 	beforeNext func()
 	nextCheck  func() string
+	refClass   string // error class of the complete (un-stalled) exchange ("" = nil)
 }
 
 func hx(s string) string { return vlib.Hex([]byte(s)) }
@@ -238,10 +248,19 @@ func c05cli(mode string) *sim.CLI {
 		if c.Mode == "exec" {
 			return "router>"
 		}
+		if c.Mode == "more" {
+			return "" // paged output: the device waits at its own "more:" text
+		}
 		return "router#"
 	}
 	dev.Handle = func(c *sim.CLI, line string) string {
+		if c.Mode == "more" {
+			c.Mode = "priv"
+		}
 		switch {
+		case line == "show paged" && !c.Hidden:
+			c.Mode = "more"
+			return "page one\nmore:"
 		case c.Hidden:
 			c.Hidden = false
 			m := c.Mode
@@ -304,10 +323,13 @@ func c05build(cs c05case) (*c05env, error) {
 	}
 	common := []util.Option{options.WithTimeoutOps(conn), options.WithReadDelay(c05RD)}
 	switch cs.kind {
-	case "si", "gp", "ia", "cb":
+	case "si", "gp", "ia", "cb", "gb":
 		dev := c05cli("priv")
 		dev.Seg = c05seg(cs)
 		e.pipe = dev.Pipe
+		if cs.kind == "si" && cs.variant == 6 {
+			common = append(common, options.WithPromptSearchDepth(24))
+		}
 		d, err := generic.NewDriver("h", append(common, options.WithCustomTransport(dev), options.WithAuthBypass())...)
 		if err != nil {
 			return nil, err
@@ -331,8 +353,22 @@ func c05build(cs c05case) (*c05env, error) {
 		e.nextWant = c05nextWant
 		switch cs.kind {
 		case "si":
-			exact, noStrip := cs.variant&1 == 1, cs.variant&2 == 2
+			exact, noStrip := cs.variant&1 == 1 && cs.variant < 4, cs.variant&2 == 2 && cs.variant < 4
+			cmd, depth, interim, eager := "show x1", "1000", "-", false
 			o := append([]util.Option{}, opOpts...)
+			switch cs.variant {
+			case 4:
+				cmd, interim = "show paged", hx("more:")
+				o = append(o, opoptions.WithInterimPromptPattern([]*regexp.Regexp{regexp.MustCompile("more:")}))
+			case 7:
+				interim = hx("more:")
+				o = append(o, opoptions.WithInterimPromptPattern([]*regexp.Regexp{regexp.MustCompile("more:")}))
+			case 5:
+				eager = true
+				o = append(o, opoptions.WithEager())
+			case 6:
+				cmd, depth = "show interfaces brief", "24"
+			}
 			if exact {
 				o = append(o, opoptions.WithExactMatchInput())
 			}
@@ -340,7 +376,7 @@ func c05build(cs c05case) (*c05env, error) {
 				o = append(o, opoptions.WithNoStripPrompt())
 			}
 			e.op = func() (string, error) {
-				r, err := d.SendCommand("show x1", o...)
+				r, err := d.SendCommand(cmd, o...)
 				if err != nil {
 					return "", err
 				}
@@ -349,6 +385,16 @@ func c05build(cs c05case) (*c05env, error) {
 			e.phaseWrites = []int{1, 1}
 			e.modelKind = "si"
 			e.modelParams = []string{"1000", b2s(exact), b2s(!noStrip), "0a", hx("show x1")}
+			if cs.variant >= 4 {
+				e.modelKind = "sx"
+				e.modelParams = []string{depth, b2s(exact), b2s(!noStrip), "0a", hx(cmd), interim, b2s(eager)}
+			}
+			if eager {
+				// the return is written without a read of its own; a stall inside the echo leaves the
+				// input line dirty, so the recovery clause applies only to complete exchanges
+				e.phaseWrites = []int{2}
+				e.cleanPhase = []bool{false}
+			}
 		case "gp":
 			e.op = func() (string, error) { return d.GetPrompt() }
 			e.phaseWrites = []int{1}
@@ -365,14 +411,28 @@ func c05build(cs c05case) (*c05env, error) {
 				e.modelParams = []string{"1000", "0a", "2", hx("enable secret"), hx("Password:"), "0", hx("s3cret"), "-", "1"}
 			}
 			e.phaseWrites = []int{1, 1, 2}
+			e.modelKind = "ia"
+			iaOpts := opOpts
+			switch cs.variant {
+			case 2: // a complete pattern ends the dialogue after the first event
+				ev = []*channel.SendInteractiveEvent{{ChannelInput: "show x1", ChannelResponse: "router#"}, {ChannelInput: "show x2"}}
+				iaOpts = append(append([]util.Option{}, opOpts...), opoptions.WithCompletePatterns([]*regexp.Regexp{regexp.MustCompile("line two")}))
+				e.phaseWrites = []int{1, 1}
+				e.modelKind = "ix"
+				e.modelParams = []string{"1000", "0", "0a", hx("line two"), "2", hx("show x1"), hx("router#"), "0", hx("show x2"), "-", "0"}
+			case 3: // exact input matching
+				ev = []*channel.SendInteractiveEvent{{ChannelInput: "clear logging", ChannelResponse: "confirm:"}, {ChannelInput: "y"}}
+				iaOpts = append(append([]util.Option{}, opOpts...), opoptions.WithExactMatchInput())
+				e.modelKind = "ix"
+				e.modelParams = []string{"1000", "1", "0a", ".", "2", hx("clear logging"), hx("confirm:"), "0", hx("y"), "-", "0"}
+			}
 			e.op = func() (string, error) {
-				r, err := d.SendInteractive(ev, opOpts...)
+				r, err := d.SendInteractive(ev, iaOpts...)
 				if err != nil {
 					return "", err
 				}
 				return r.Result, nil
 			}
-			e.modelKind = "ia"
 		case "cb":
 			T := eff
 			e.op = func() (string, error) {
@@ -395,6 +455,69 @@ func c05build(cs c05case) (*c05env, error) {
 			e.phaseWrites = []int{2, 2}
 			e.modelKind = "cb"
 			e.modelParams = []string{"0a", hx("clear logging"), "2", hx("confirm:"), "0", hx("y"), hx("router#"), "1", "-"}
+			if cs.variant == 1 {
+				// every callback option: not-contains guard, once, a different timeout for the next
+				// stage, a regular-expression trigger
+				T2 := T + 30*time.Millisecond
+				e.op = func() (string, error) {
+					cb1, err := generic.NewCallback(func(gd *generic.Driver, _ string) error {
+						return gd.Channel.WriteAndReturn([]byte("y"), false)
+					}, opoptions.WithCallbackContains("confirm:"), opoptions.WithCallbackNotContains("never-there"),
+						opoptions.WithCallbackOnce(), opoptions.WithCallbackNextTimeout(T2), opoptions.WithCallbackName("confirm"))
+					if err != nil {
+						return "", err
+					}
+					cb2, err := generic.NewCallback(nil, opoptions.WithCallbackContainsRe(regexp.MustCompile("router#")), opoptions.WithCallbackComplete())
+					if err != nil {
+						return "", err
+					}
+					r, err := d.SendWithCallbacks("clear logging", []*generic.Callback{cb1, cb2}, T)
+					if err != nil {
+						return "", err
+					}
+					return r.Result, nil
+				}
+				e.modelKind = "cx"
+				e.modelParams = []string{"0a", hx("clear logging"), "2", hx("confirm:"), hx("never-there"), "0", hx("y"), strconv.Itoa(int(T2 / time.Millisecond)),
+					hx("router#"), "-", "1", "-", "-"}
+				e.wantT = func(phase int) time.Duration {
+					if phase >= 1 {
+						return T2
+					}
+					return T
+				}
+			}
+		case "gb":
+			cmds := []string{"show b1", "show b2", "show b3"}
+			join := func(m *response.MultiResponse) string {
+				var rs []string
+				for _, r := range m.Responses {
+					rs = append(rs, r.Result)
+				}
+				return strings.Join(rs, "|")
+			}
+			e.op = func() (string, error) {
+				var m *response.MultiResponse
+				var err error
+				if cs.variant == 0 {
+					m, err = d.SendCommands(cmds, opOpts...)
+				} else {
+					m, err = d.SendCommandsFromFile(c05batchFile(cmds), opOpts...)
+				}
+				if err != nil {
+					return "", err
+				}
+				return join(m), nil
+			}
+			ms := strconv.Itoa(int(eff / time.Millisecond))
+			e.modelKind = "sg"
+			e.modelParams = []string{"1000", "0a", strconv.Itoa(len(cmds))}
+			for _, cm := range cmds {
+				e.modelParams = append(e.modelParams, "s", ms, "1", hx(cm))
+				e.phaseWrites = append(e.phaseWrites, 1, 1)
+				e.cleanPhase = append(e.cleanPhase, false, true)
+			}
+			e.cmpResult = false
 		}
 	case "nw":
 		dev := c05cli("exec")
@@ -450,7 +573,7 @@ func c05build(cs c05case) (*c05env, error) {
 		// three-level device; the timed-out operation navigates, the recovery exchange is of a
 		// different kind and needs a different level; the device logs the mode every line arrived in
 		start := "privilege-exec"
-		if cs.variant == 4 {
+		if cs.variant == 4 || cs.variant == 5 {
 			start = "exec"
 		}
 		dev := sim.NewPrivDev([]sim.PrivLevel{
@@ -481,7 +604,7 @@ func c05build(cs c05case) (*c05env, error) {
 			if _, err := d.Channel.ReadUntilPrompt(c05ctx()); err != nil {
 				return err
 			}
-			if cs.variant != 4 {
+			if cs.variant != 4 && cs.variant != 5 {
 				// bring the driver to its default desired level with a verified cache
 				_, err := d.SendCommand("show pre")
 				return err
@@ -572,7 +695,11 @@ func c05build(cs c05case) (*c05env, error) {
 			addS(conn, "configure terminal")
 			addG()
 			e.op = func() (string, error) { return "", d.AcquirePriv("configuration") }
-		case 4:
+		case 6:
+			// GetPrompt through the network driver (no navigation, connection-wide timeout)
+			addG()
+			e.op = func() (string, error) { return d.GetPrompt() }
+		case 4, 5:
 			addG()
 			addS(conn, "enable")
 			addG()
@@ -584,6 +711,17 @@ func c05build(cs c05case) (*c05env, error) {
 					return "", err
 				}
 				return r.Result, nil
+			}
+			if cs.variant == 5 {
+				// a batch behind the implicit acquire
+				addS(eff, "show x2")
+				e.op = func() (string, error) {
+					m, err := d.SendCommands([]string{"show x1", "show x2"}, opOpts...)
+					if err != nil {
+						return "", err
+					}
+					return join(m), nil
+				}
 			}
 			payloadMode, payloadLine = "configuration", "set ~c3"
 			e.nextWant = "out of set ~c3 in configuration\nline two"
@@ -616,8 +754,53 @@ func c05build(cs c05case) (*c05env, error) {
 			}
 			return eff
 		}
+	case "as":
+		pp, rejects, denied := "", 0, false
+		switch cs.variant {
+		case 1:
+			pp = "k3yphrase"
+		case 2:
+			rejects = 1
+		case 3:
+			rejects = 3
+		case 4:
+			denied = true
+		}
+		if cs.variant == 5 {
+			pp = "k3yphrase"
+		}
+		dev := sim.NewC05LoginSSH("s3cret", pp, rejects, denied)
+		if cs.variant == 5 {
+			dev.PPRejects = 3
+		}
+		dev.Seg = c05seg(cs)
+		e.pipe = dev.Pipe
+		d, err := generic.NewDriver("h", append(common, options.WithCustomTransport(dev),
+			options.WithAuthUsername("admin"), options.WithAuthPassword("s3cret"))...)
+		if err != nil {
+			return nil, err
+		}
+		e.start = dev.Start
+		e.openIsOp = true
+		e.op = func() (string, error) { return "", d.Open() }
+		e.closeFn = func() { _ = d.Close() }
+		e.phaseWrites = []int{0, 2}
+		if (cs.variant >= 1 && cs.variant <= 3) || cs.variant == 5 {
+			e.phaseWrites = []int{0, 2, 2}
+		}
+		switch cs.variant {
+		case 3, 5:
+			e.refClass = "auth"
+		case 4:
+			e.refClass = "connection"
+		}
+		e.modelKind = "as"
+		e.modelParams = []string{"1000", "0a", hx("s3cret"), vlib.Hex([]byte(pp))}
+		connOnly()
+		e.cmpResult = false
 	case "au":
 		dev := sim.NewC05Login("admin", "s3cret")
+		dev.Rejects = map[int]int{1: 1, 2: 3}[cs.variant]
 		dev.Seg = c05seg(cs)
 		e.pipe = dev.Pipe
 		d, err := generic.NewDriver("h", append(common, options.WithCustomTransport(dev),
@@ -630,12 +813,25 @@ func c05build(cs c05case) (*c05env, error) {
 		e.op = func() (string, error) { return "", d.Open() }
 		e.closeFn = func() { _ = d.Close() }
 		e.phaseWrites = []int{0, 2, 2}
+		switch cs.variant {
+		case 1: // refused once: user, password, user, password
+			e.phaseWrites = []int{0, 2, 2, 2, 2}
+		case 2: // refused until the user-name prompt has been seen too often
+			e.phaseWrites = []int{0, 2, 2, 2, 2}
+			e.refClass = "auth"
+		}
 		e.modelKind = "au"
 		e.modelParams = []string{"1000", "0a", hx("admin"), hx("s3cret")}
 		connOnly()
 		e.cmpResult = false
 	case "he", "rp", "rq":
-		v11 := (cs.kind == "rp" && cs.variant == 1) || (cs.kind == "rq" && cs.variant >= 100)
+		v11 := (cs.kind == "rp" && cs.variant == 1) || (cs.kind == "rq" && cs.variant >= 100) || (cs.kind == "he" && cs.variant >= 1)
+		if cs.kind == "he" && cs.variant >= 1 {
+			common = append(common, options.WithNetconfPreferredVersion(map[int]string{1: "1.1", 2: "1.0"}[cs.variant]))
+		}
+		if cs.kind == "rq" && cs.variant%3 == 0 {
+			common = append(common, options.WithNetconfForceSelfClosingTags())
+		}
 		srv := sim.NewNCServer(true, v11)
 		srv.Seg = c05seg(cs)
 		srv.Behave = func(i int, req sim.NCRequest) sim.NCReply {
@@ -646,7 +842,7 @@ func c05build(cs c05case) (*c05env, error) {
 			return sim.NCReply{Payload: []byte(p), Chunks: []int{25}}
 		}
 		srv.Hello = []byte(`<hello xmlns="urn:ietf:params:xml:ns:netconf:base:1.0"><capabilities><capability>urn:ietf:params:netconf:base:1.0</capability>` +
-			map[bool]string{true: `<capability>urn:ietf:params:netconf:base:1.1</capability>`}[v11] + `</capabilities><session-id>7</session-id></hello>`)
+			map[bool]string{true: `<capability>urn:ietf:params:netconf:base:1.1</capability>`}[v11] + `</capabilities>` + map[bool]string{false: `<session-id>7</session-id>`}[cs.kind == "he" && cs.variant == 1] + `</hello>`)
 		e.pipe = srv.Pipe
 		d, err := netconf.NewDriver("h", append(common, options.WithCustomTransport(srv), options.WithAuthBypass())...)
 		if err != nil {
@@ -919,7 +1115,11 @@ func c05reference(kind string, variant int) *c05ref {
 	o := c05run(cs, nil)
 	e, _ := c05build(cs)
 	ref.env = e
-	if o.setupErr != "" || o.class != "nil" || o.hang || o.panicMsg != "" {
+	wantClass := "nil"
+	if e != nil && e.refClass != "" {
+		wantClass = e.refClass
+	}
+	if o.setupErr != "" || o.class != wantClass || o.hang || o.panicMsg != "" {
 		ref.err = fmt.Sprintf("reference run of %s/%d failed: setup=%q class=%s hang=%v panic=%q", kind, variant, o.setupErr, o.class, o.hang, o.panicMsg)
 		return ref
 	}
@@ -1045,8 +1245,8 @@ func c05kPoints(c *ctx, ref *c05ref, r *vlib.Rng) []int {
 		}
 	}
 	stride := 5
-	if ref.total > 120 {
-		stride = 29
+	if ref.total > 60 {
+		stride = ref.total / 8
 	}
 	if c.scale > 1 {
 		stride = stride/2 + 1
@@ -1106,11 +1306,12 @@ func runC05(c *ctx) {
 			var cases []c05case
 			for _, setting := range c05settings(kind) {
 				for seg := 0; seg < 3; seg++ {
-					if !c.thorough() && c05variants(kind) > 1 && (v+seg)%2 == 1 && setting != "conn" {
-						continue // quick: thin out variant x segmentation for the override settings
-					}
-					if !c.thorough() && kind == "nv" && ((setting == "conn" && seg != v%3) || (setting != "conn" && seg != (v+1)%3)) {
+					thin := kind == "nv" || kind == "gb" || kind == "as" || (kind == "au" && v >= 1) || (kind == "si" && v >= 4) || (kind == "ia" && v >= 2) || (kind == "he" && v >= 1) || (kind == "cb" && v >= 1)
+					if !c.thorough() && thin && ((setting == "conn" && seg != v%3) || (setting != "conn" && seg != (v+1)%3)) {
 						continue // quick: one segmentation class per variant and setting (rotating)
+					}
+					if !c.thorough() && !thin && c05variants(kind) > 1 && (v+seg)%2 == 1 && setting != "conn" {
+						continue // quick: thin out variant x segmentation for the override settings
 					}
 					for _, k := range c05kPoints(c, ref, c.rng) {
 						cases = append(cases, c05case{kind: kind, variant: v, seg: seg, setting: setting, k: k, seed: c.rng.U64()})
@@ -1123,9 +1324,18 @@ func runC05(c *ctx) {
 				if i+1 < len(ref.starts) {
 					end = ref.starts[i+1]
 				}
-				for _, k := range []int{st, (st + end) / 2} {
+				ks := []int{st, (st + end) / 2}
+				seg := c.rng.Intn(3)
+				if !c.thorough() {
+					// quick: one point per phase, whole reactions (no delivery budget on top of the long timeout)
+					ks, seg = []int{(st + end) / 2}, 0
+					if v > 1 && i%2 == 1 {
+						continue
+					}
+				}
+				for _, k := range ks {
 					if k < ref.total {
-						cases = append(cases, c05case{kind: kind, variant: v, seg: c.rng.Intn(3), setting: "clong", k: k, seed: c.rng.U64()})
+						cases = append(cases, c05case{kind: kind, variant: v, seg: seg, setting: "clong", k: k, seed: c.rng.U64()})
 					}
 				}
 			}
@@ -1387,7 +1597,7 @@ func c05check(c *ctx, ref *c05ref, cases []c05case) {
 			continue
 		}
 		wantT := e.wantT(c05stalledPhase(ref, cs.k))
-		if clsOf(a.spec) != "nil" {
+		if c := clsOf(a.spec); c == "timeout" || c == "privilege" {
 			if a.dl != int(wantT/time.Millisecond) && !strad[i] {
 				res.Fail("machinery", cl, fmt.Sprintf("model deadline in force %d ms, expected %v", a.dl, wantT), "model-deadline")
 				continue
@@ -1412,7 +1622,9 @@ func c05check(c *ctx, ref *c05ref, cases []c05case) {
 			continue
 		}
 		if specCls == "nil" {
-			if o.result != ref.result && cs.kind != "rp" && cs.kind != "rq" {
+			// (a loose spec -- the last phase may complete before the end of its stream -- is judged on
+			// the delivered chunks through the model below)
+			if o.result != ref.result && cs.kind != "rp" && cs.kind != "rq" && a.spec != "ok:*" {
 				res.Fail("oracle", cl, fmt.Sprintf("%s returned %q, the complete exchange gives %q", c05name(cs), o.result, ref.result), "partial-result:"+c05sig(cs))
 				continue
 			}
@@ -1420,7 +1632,7 @@ func c05check(c *ctx, ref *c05ref, cases []c05case) {
 				res.Fail("oracle", cl, fmt.Sprintf("RPC returned success with an incomplete reply %q", o.result), "partial-result:"+c05sig(cs))
 				continue
 			}
-		} else {
+		} else if specCls == "timeout" || specCls == "privilege" {
 			if o.elapsed > wantT+c05Slack {
 				res.Fail("oracle", cl, fmt.Sprintf("%s returned after %v; timeout in force %v + slack %v (three runs)", c05name(cs), o.elapsed, wantT, c05Slack), "late-return:"+c05sig(cs))
 				continue
@@ -1682,4 +1894,23 @@ func c05f12env() []string {
 		return nil
 	}
 	return []string{"C05_F12_CONC=64"}
+}
+
+var (
+	c05batchOnce sync.Once
+	c05batchPath string
+)
+
+// c05batchFile writes the batch's commands to a file once (SendCommandsFromFile reads it per call).
+func c05batchFile(cmds []string) string {
+	c05batchOnce.Do(func() {
+		f, err := os.CreateTemp("", "verif-c05-batch-*.txt")
+		if err != nil {
+			return
+		}
+		f.WriteString(strings.Join(cmds, "\n") + "\n")
+		f.Close()
+		c05batchPath = f.Name()
+	})
+	return c05batchPath
 }
